@@ -31,3 +31,23 @@ package internal
 //@   loop 1 iteration-ensures [put-stored] ev.Type == 0 ==> has(c.values, key) && has(c.values[key], k) && c.values[key][k] == bytes2str(ev.Kv.Value)
 //@   loop 1 iteration-ensures [delete-removed] ev.Type == 1 && at_head(has(c.values, key)) ==> !has(c.values[key], k)
 //@   loop 1 iteration-ensures [delete-only-that-key] ev.Type == 1 && at_head(has(c.values, key)) ==> forallk(s, string, s != k ==> has(c.values[key], s) == at_head(has(c.values[key], s)))
+
+// getCurrent (what a newly added listener is replayed): every entry of the record for the prefix contributes
+// exactly one KV with that entry's key and value - nothing is skipped or merged.
+//@ func (*cluster).getCurrent
+//@   prop C15
+//@   requires c != nil && c.values != nil
+//@   loop 1 iteration-ensures [replays-every-entry] len(kvs) == at_head(len(kvs)) + 1 && has(c.values[key], k) && kvs[at_head(len(kvs))].Key == k && kvs[at_head(len(kvs))].Val == c.values[key][k]
+
+// reload (after a reconnect): for every watched prefix one goroutine is started, and the prefix it loads and
+// watches is held in a variable of its own, created in that iteration and holding that iteration's prefix
+// (a goroutine sharing the loop variable would load whatever prefix the loop has reached when it runs).
+//@ func (*cluster).reload
+//@   prop C15
+//@   opaque Run
+//@   opaque NewRoutineGroup
+//@   opaque Wait
+//@   requires c != nil && c.listeners != nil
+//@   loop 2 invariant -1 <= rangeindex && rangeindex <= len(keys)
+//@   loop 2 iteration-ensures [one-loader-per-prefix] calls(c.watchGroup.Run) == 1
+//@   loop 2 iteration-ensures [loader-owns-its-prefix] fresh_in_iteration(captured(arg(c.watchGroup.Run, 1), string)) && *captured(arg(c.watchGroup.Run, 1), string) == at_head(keys[rangeindex + 1])
